@@ -513,7 +513,89 @@ def h_nb(rp):
     return out
 
 
-HANDLERS = [("nb_estimator.", h_nb), ("ctparse._match_rule", h_match_rule), ("ctparse._ctparse.emission", h_emission), ("ctparse._ctparse", h_deadline), ("ctparse._regex_stack", h_deadline), ("ctparse._get_labels", h_labels), ("ctparse.ctparse[", h_ctparse), ("regex[", h_reglan),
+def h_partial_parse(rp):
+    import importlib
+    PP = importlib.import_module("ctparse.partial_parse")
+    import ctparse.types as T
+    out = {"func": rp["func"], "clause": rp["clause"]}
+    a = rp["args"]
+    if "__lt__" in rp["func"]:
+        objs = []
+        for d in a[:2]:
+            o = PP.PartialParse.__new__(PP.PartialParse)
+            o.max_covered_chars = d["attrs"]["max_covered_chars"]
+            o.score = d["attrs"]["score"]
+            objs.append(o)
+        x, y = objs
+        got = x < y
+        want = x.max_covered_chars < y.max_covered_chars or (x.max_covered_chars == y.max_covered_chars and x.score < y.score)
+        out.update({"a": [x.max_covered_chars, x.score], "b": [y.max_covered_chars, y.score], "real": got, "spec": want,
+                    "confirmed": got != want})
+        return out
+    # apply_rule[n=..,window=a:b,...]
+    import re
+    m = re.search(r"n=(\d+),window=(\d+):(\d+),(\w+)", rp["func"])
+    n, lo, hi, mode = int(m.group(1)), int(m.group(2)), int(m.group(3)), m.group(4)
+    items = []
+    for i in range(n):
+        t = T.Time(hour=i)
+        t.mstart, t.mend = 10 * i, 10 * i + 5
+        items.append(t)
+    pp = PP.PartialParse(tuple(items), (100, "ruleA"))
+    pp.applicable_rules = {"marker": 1}
+    seen = {}
+    res = None
+    if mode != "None":
+        res = T.Time(hour=23)
+        res.mstart, res.mend = 10 * lo, 10 * (hi - 1) + 5
+    ts = object()
+
+    def rule(*args):
+        seen["args"] = args
+        return res
+    try:
+        r = pp.apply_rule(ts, rule, "ruleB", (lo, hi))
+    except Exception as e:
+        out["real_exception"] = repr(e)
+        out["confirmed"] = rp["clause"] == "no-exceptional-exit"
+        return out
+    want = tuple(items[:lo]) + (res,) + tuple(items[hi:])
+    checks = {
+        "rule-gets-the-reference-time-and-exactly-the-window": seen.get("args") is not None and seen["args"][0] is ts and list(seen["args"][1:]) == items[lo:hi],
+        "none-iff-production-none": (r is None) == (res is None),
+    }
+    if r is not None and res is not None:
+        checks.update({
+            "result-replaces-the-window-by-the-value": len(r.prod) == len(want) and all(x is y for x, y in zip(r.prod, want)),
+            "trace-extended-by-the-rule-name": r.rules == (100, "ruleA", "ruleB"),
+            "applicable-rules-inherited": r.applicable_rules is pp.applicable_rules,
+            "covered-length-of-the-new-production": r.max_covered_chars == want[-1].mend - want[0].mstart,
+            "receiver-unchanged": pp.prod == tuple(items) and pp.rules == (100, "ruleA"),
+        })
+    out["checks"] = checks
+    out["confirmed"] = checks.get(rp["clause"]) is False
+    return out
+
+
+def h_gap(rp):
+    """two expressions separated by a longer run of white space must still form one sequence"""
+    import importlib
+    C = importlib.import_module("ctparse.ctparse")
+    R = importlib.import_module("ctparse.rule")
+    out = {"func": rp["func"], "clause": rp["clause"]}
+    bad = []
+    for txt in ("tomorrow  8pm", "tomorrow \t 8pm", "tomorrow 8pm", "tomorrow8pm"):
+        ms = C._match_regex(txt, R._regex)
+        seqs = C._regex_stack(txt, ms)
+        joint = any(any(m.mstart == 0 for m in s) and any(txt[m.mstart:m.mend].strip().startswith("8pm") for m in s) for s in seqs)
+        if not joint:
+            bad.append(txt)
+    out["texts_without_a_joint_sequence"] = bad
+    out["confirmed"] = bool(bad)
+    return out
+
+
+HANDLERS = [("ctparse._regex_stack.get_m_dist", h_gap), ("partial_parse.PartialParse.", h_partial_parse), ("nb_estimator.", h_nb), ("ctparse._match_rule", h_match_rule), ("ctparse._ctparse.emission", h_emission), ("ctparse._ctparse", h_deadline), ("ctparse._regex_stack", h_deadline), ("ctparse._get_labels", h_labels), ("ctparse.ctparse[", h_ctparse), ("regex[", h_reglan),
             ("types.Artifact.__eq__", h_eq), ("corpus.parse_nb_string.nb_str", h_roundtrip),
             ("postprocess_latent.apply_postprocessing_rules", h_postprocess),
             ("types.Time.", h_accessor), ("types.Interval.", h_accessor),
